@@ -152,7 +152,7 @@ func (c07) Enumerate(tier string, seed int64, yield func(string, core.Case) bool
 			return true
 		}
 		// all neighbours of the small unsatisfiable seeds, the other seeds themselves
-		if !strings.HasPrefix(name, "php32") && !strings.HasPrefix(name, "par3both") && !strings.HasPrefix(name, "php43-del") && strings.Contains(name, "-") && !thorough {
+		if !strings.HasPrefix(name, "php32") && !strings.HasPrefix(name, "par3both") && !strings.HasPrefix(name, "php43-del") && !strings.HasPrefix(name, "php43-unit") && strings.Contains(name, "-") && !thorough {
 			return true
 		}
 		return emitPairs("M-twice/"+name, f, n, 0)
